@@ -287,6 +287,12 @@ class SymStr:
         if self.dense():
             return self
         out = []
+        opts = [q for q in self.p if isinstance(q, Opt)]
+        if len(opts) >= 2:
+            # explore the two extreme patterns first (no slot present / every slot present), then the mixed ones
+            none = z3.And([z3.Not(q.present) for q in opts])
+            every = z3.And([q.present for q in opts])
+            ctx.choose_n([none, every, z3.Not(z3.Or(none, every))])
         for q in self.p:
             if isinstance(q, Opt):
                 # an optional slot reached an operation other than Pattern.sub: fork on its presence
